@@ -13,4 +13,5 @@ def units(tier):
     u.append(dict(kind="func", mechanism="lemmas (D: z3)", name="lemmas:z3", module="vf.lemmas.z3lemmas", func="unit"))
     for l in [x for x in circuit_labels(tier) if x != 'tiny']:
         u.append(dict(kind="xlift", mechanism="xlift bounded (C), exact", name=f"xlift:simulator[{l}]", module="vf.tasks.t_fock", func="unit", args=dict(which="simulator", label=l)))
+    u.append(dict(kind="func", mechanism="bounded runtime contract (C), native machine integers", name="bounded:large-occupations", module="vf.tasks.t_fock", func="unit_bigint", args={}))
     return u
